@@ -4,9 +4,17 @@
    Panic / OOB / OutOfFuel.  This file collects, per entry point, the theorem that the model never
    reaches such an outcome, for ALL inputs (and schedules / call histories).  The statements are
    re-stated here and proved by the theorems pinned in the owning property's file.
-   What is NOT covered by a theorem is listed in props/C05.py (CLAIM) and DESIGN.md section 11:
-   real stack depth (known finding I), the deserializer walks, the DOM/JSON walks on arbitrary
-   tapes (C16/C17 prove them on well-formed tapes), allocator failure, pointer provenance. *)
+   Further entry points are pinned in Props/C05_readers.v (text and binary streaming readers and
+   lexer: every method, every schedule incl. Fail events, every capacity), Props/C05_walks.v
+   (binary on-demand and reader deserializer walks for every byte string and shape, text stream
+   walk; the generic SerdeShape.walk theorem) and Props/C05_leaves.v (scalar conversions, date
+   arithmetic under its documented preconditions).
+   NOT covered by a theorem (exercised by props/C05*.py in release and debug builds): the binary
+   tape deserializer walk and the text tape deserializer walk (they need the object grammar /
+   payload-range facts at every index the walks compute), real stack depth (known finding I),
+   allocator failure, pointer provenance.  The binary walk model returns Panic 9001 on shapes
+   containing prop(..) where the implementation returns a deserialize error: a model-only artefact
+   characterised exactly by C05_bde_prop_is_model_artefact (such shapes are not generated). *)
 From JV Require Import Bytes Tables.
 From JV Require TextTape BinTape BinPrim Writer TextReader BufWin.
 From JV.Props Require C02 C03 C06 C08 C12 C13 C15 C16 C17.
